@@ -23,6 +23,7 @@ EXHAUSTIVE = {"quick": True, "thorough": True}
 UFUNCS = sorted({f for f in vars(np).values() if isinstance(f, np.ufunc) and f.signature is None and f.nin <= 2 and f.nout <= 2},
                 key=lambda f: f.__name__)
 DTS = ["b1", "i8", "u1", "f4", "f8", "c8", "c16"]
+G.DT.setdefault("i2", np.int16)
 ARR1 = ["s", "s_dask"]
 ARR2 = ["ss", "sa", "as", "sk", "ks", "sq", "qs", "out", "out_tuple", "ss_dask", "s0d", "bcast"]
 
@@ -250,7 +251,7 @@ def op_case(draw):
     shape = {"DualPolarizationSignal": (3, 2, 2), "FullStokesSignal": (3, 2, 4)}.get(cls, draw(st.sampled_from([(4, 3), (3, 2, 2), (5, 1)])))
     if cls == "Signal" and draw(st.booleans()):
         shape = (5,)
-    other = draw(st.sampled_from(["sig", "sig_other_class", "arr", "arr_bcast", "scalar", "npscalar", "quantity"]))
+    other = draw(st.sampled_from(["sig", "sig_other_class", "arr", "arr_bcast", "scalar", "npscalar", "npscalar_wide", "quantity"]))
     return {"dtype": dt, "cls": cls, "shape": list(shape), "op": draw(st.sampled_from(sorted(BINOPS) + sorted(UNOPS))), "other": other,
             "order": draw(st.sampled_from(["sig_first", "sig_second"])), "salt": draw(st.integers(0, 50)), "dask": draw(st.integers(0, 4)) == 0}
 
@@ -300,6 +301,10 @@ def run_op(case, stt):
             b_raw = b = {"b1": True, "i8": 3, "u1": 2, "f4": 1.5, "f8": 2.5, "c8": 1 + 2j, "c16": 2 - 1j}[dt]
         elif oth == "npscalar":
             b_raw = b = x.dtype.type(3)
+        elif oth == "npscalar_wide":
+            # a NumPy scalar of the widest type of its kind: NumPy promotes the result (unlike a Python scalar)
+            b_raw = b = {"b1": np.int64(3), "i8": np.int64(3), "u1": np.int64(300), "f4": np.float64(2.5), "f8": np.float64(2.5),
+                         "c8": np.complex128(1 + 2j), "c16": np.complex128(1 + 2j)}[dt]
         else:
             if dt not in ("f4", "f8") or opn in ("&", "|", "^", "<<", ">>"):
                 stt.label("skip_quantity")
@@ -347,7 +352,8 @@ def chain_case(draw):
     cls = draw(st.sampled_from(["Signal", "RadioSignal", "IntensitySignal", "BasebandSignal"]))
     steps = draw(st.lists(st.tuples(st.sampled_from(sorted(IOPS)), st.sampled_from(["scalar", "fscalar", "cscalar", "arr", "sig", "arr_f8", "view"])),
                           min_size=1, max_size=5))
-    return {"dtype": dt, "cls": cls, "steps": [list(s) for s in steps], "salt": draw(st.integers(0, 50)), "view": draw(st.booleans())}
+    return {"dtype": dt, "cls": cls, "steps": [list(s) for s in steps], "salt": draw(st.integers(0, 50)), "view": draw(st.booleans()),
+            "dask": draw(st.integers(0, 2)) == 0, "observe": draw(st.booleans())}
 
 
 def run_chain(case, stt):
@@ -359,8 +365,11 @@ def run_chain(case, stt):
         stt.label("skip_class_dtype")
         return
     buf = x.copy()
-    a = mk_sig(pb, cls, buf, 0)
-    head = a[2:5] if case["view"] else None  # a signal viewing the same buffer, taken before the in-place ops
+    dask_backed = bool(case.get("dask"))
+    a = mk_sig(pb, cls, buf, 0, dask_backed)
+    head = a[2:5] if (case["view"] and not dask_backed) else None  # a signal viewing the same buffer, taken before the in-place ops
+    if case.get("observe"):
+        check(same_bits(np.asarray(a), x), "np.asarray(signal) is not its data")
     model = x.copy()
     meta0 = attrs(a)
     refused = 0
@@ -378,17 +387,26 @@ def run_chain(case, stt):
                 other = other_raw
             trial = model.copy()
             try:
-                UF[opn[:-1]](trial, other_raw, out=trial)
+                if dask_backed:
+                    # the reference for Dask data is the same in-place ufunc on a plain Dask array (Dask replaces the graph of `out`
+                    # and does not enforce NumPy's same-kind casting rule)
+                    import dask.array as da
+
+                    td = da.from_array(trial, chunks=(2,) + trial.shape[1:])
+                    UF[opn[:-1]](td, other_raw, out=td)
+                    trial = td.compute(scheduler="synchronous")
+                else:
+                    UF[opn[:-1]](trial, other_raw, out=trial)
                 ok_np = True
             except (TypeError, ValueError) as e:
                 ok_np, exc = False, type(e)
             if not ok_np:
-                keep = a.data.copy()
+                keep = values(a.data).copy()
                 must_raise("in-place %s that NumPy refuses for the data (%s with %s)" % (opn, dt, ok), lambda: IOPS[opn](a, other),
                            (TypeError,) if issubclass(exc, TypeError) else (ValueError,))
                 # a TypeError is raised before anything is written; a ValueError (integer to a negative power) comes mid-loop and
                 # NumPy leaves the same partial result in a plain array
-                check(same_bits(a.data, keep if issubclass(exc, TypeError) else trial), "a refused in-place {} left the signal in another state "
+                check(same_bits(values(a.data), keep if issubclass(exc, TypeError) else trial), "a refused in-place {} left the signal in another state "
                       "than NumPy leaves the plain array", opn)
                 model = model if issubclass(exc, TypeError) else trial
                 refused += 1
@@ -398,14 +416,20 @@ def run_chain(case, stt):
             with lib("in-place " + opn):
                 a = IOPS[opn](a, other)
             check(a is obj, "in-place {} re-bound the signal object", opn)
-            check(a.data is buf, "in-place {} re-bound the signal's data instead of writing into its buffer", opn)
-            check(same_bits(a.data, model), "after in-place {} with {}: values/dtype differ from NumPy's in-place result on the array ({} vs {})", opn, ok,
-                  a.data.dtype, model.dtype)
+            if not dask_backed:
+                check(a.data is buf, "in-place {} re-bound the signal's data instead of writing into its buffer", opn)
+            check(same_bits(values(a.data), model), "after in-place {} with {}: values/dtype differ from NumPy's in-place result on the array ({} vs {})", opn,
+                  ok, a.data.dtype, model.dtype)
+            if case.get("observe"):
+                # converting the signal between the steps must show the current values (nothing stale)
+                check(same_bits(np.asarray(a), model), "np.asarray(signal) after in-place {} does not show the updated data", opn)
+                check(same_bits(np.array(a, dtype=np.complex128), model.astype(np.complex128)), "np.array(signal, dtype) after in-place {} is stale", opn)
             check(same_attrs(attrs(a), meta0), "in-place {} changed the signal's metadata", opn)
             if head is not None:
                 check(same_bits(head.data, model[2:5]), "a signal viewing the same buffer does not see the in-place {}", opn)
     stt.nt(len(case["steps"]) >= 2)
     stt.label("refused_steps", refused)
+    stt.label("dask" if dask_backed else "numpy")
     stt.label(cls)
 
 
